@@ -116,6 +116,36 @@ func main() {
 		stat[fmt.Sprintf("blocks%d", (len(j.msg)+1+135)/136)]++
 		fmt.Fprintf(gen.Out, "spec\t%d\t%s\t=>\t%s\n", j.dom, hex.EncodeToString(j.msg), res[i])
 	}
+	// two hashes over adjacent chunks of one buffer (total long enough that the first chunk's padded
+	// size fits in the buffer): both digests must be the standard ones
+	for i := 0; i < 6; i++ {
+		dom := []int{1, 6}[i%2]
+		total := 136 + g.Intn(137)
+		split := 1 + g.Intn(total-1)
+		if i < 2 {
+			split = 32
+		}
+		msg := contents(total, 3)
+		m1, m2 := msg[:split], msg[split:]
+		d1, d2 := digest(dom, m1), digest(dom, m2)
+		c := &circuits.KeccakPairCircuit{In: make([]frontend.Variable, 8*total), Out1: make([]frontend.Variable, 256), Out2: make([]frontend.Variable, 256), Split: 8 * split, Domain: dom}
+		r1, r2 := hex.EncodeToString(d1), hex.EncodeToString(d2)
+		if err := test.IsSolved(c, &circuits.KeccakPairCircuit{In: bits(msg), Out1: bits(d1), Out2: bits(d2), Split: 8 * split, Domain: dom}, gen.BN254); err != nil {
+			// which of the two? try each alone
+			one := func(m, d []byte) bool {
+				cc := &circuits.KeccakCircuit{In: make([]frontend.Variable, 8*len(m)), Out: make([]frontend.Variable, 256), Domain: dom}
+				return test.IsSolved(cc, &circuits.KeccakCircuit{In: bits(m), Out: bits(d), Domain: dom}, gen.BN254) == nil
+			}
+			if one(m1, d1) && one(m2, d2) {
+				r2 = fmt.Sprintf("gadget-rejects-standard-digest(second of two hashes over adjacent chunks of one %d-byte buffer, split at %d; each alone is accepted)", total, split)
+			} else {
+				r1, r2 = "gadget-rejects-standard-digest(test-engine)", "gadget-rejects-standard-digest(test-engine)"
+			}
+		}
+		stat["adjacent-chunks"]++
+		fmt.Fprintf(gen.Out, "spec\t%d\t%s\t=>\t%s\n", dom, hex.EncodeToString(m1), r1)
+		fmt.Fprintf(gen.Out, "spec\t%d\t%s\t=>\t%s\n", dom, hex.EncodeToString(m2), r2)
+	}
 	if *doR1CS {
 		for _, n := range []int{0, 1, 135, 136, 137, 100} {
 			for _, dom := range []int{1, 6} {
